@@ -76,6 +76,26 @@ def draw_costs(rng, default_p=0.15):
     return {"uf": uf, "ub": ub, "wd": wd, "rd": rd}
 
 
+UF_INEXACT = ("1/10", "3/10", "1/3", "7/10", "9/10", "11/10", "7/5", "5/3",
+              "23/10", "3", "17/7")
+WD_INEXACT = ("0", "1/10", "1/3", "3/5", "13/10", "2", "27/10", "5", "61/10",
+              "12")
+
+
+def draw_costs_inexact(rng):
+    """Cost vectors that are not exactly representable in binary floating
+    point (the library sees the nearest doubles)."""
+    from fractions import Fraction
+    uf = rng.choice(UF_INEXACT)
+    ub = uf if rng.random() < 0.2 else rng.choice(UF_INEXACT)
+    while True:
+        wd = rng.choice(WD_INEXACT)
+        rd = wd if rng.random() < 0.2 else rng.choice(WD_INEXACT)
+        if (Fraction(wd) + Fraction(rd)) / Fraction(uf) <= 64:
+            break
+    return {"uf": uf, "ub": ub, "wd": wd, "rd": rd}
+
+
 def draw_cfg(rng, variant, nmax, rf_nmax=None, valid=True):
     """Draw one valid configuration of a class variant."""
     if variant in RF:
